@@ -2,7 +2,11 @@
 
 package server
 
-import "sync/atomic"
+import (
+	"context"
+	"net"
+	"sync/atomic"
+)
 
 // Verification hooks, compiled only with the build tag "verif".
 //
@@ -24,4 +28,16 @@ func verifYield(point string, f *fsm) {
 		}
 		(*fn)(point, peer)
 	}
+}
+
+// verifDialFn, when installed, replaces the outgoing TCP connect of the
+// connect loop (a test harness hands out one end of an in-memory pipe, or
+// refuses). Without an installed function verifDial dials.
+var verifDialFn atomic.Pointer[func(ctx context.Context, network, address string) (net.Conn, error)]
+
+func verifDial(ctx context.Context, d *net.Dialer, network, address string) (net.Conn, error) {
+	if fn := verifDialFn.Load(); fn != nil {
+		return (*fn)(ctx, network, address)
+	}
+	return d.DialContext(ctx, network, address)
 }
